@@ -402,6 +402,18 @@ Print Assumptions C19_zerofpr_interrupted_outputs_valid.
 Print Assumptions C19_pantr_interrupted_outputs_valid.
 Print Assumptions C19_fista_interrupted_outputs_valid.
 
+(* the start-up bound as an explicit constant of the parameters (over R): the unpolled initial step-size loop makes at most nL passes
+   when L_init > 0 and L_max <= L_init 2^nL, so a PANOC solve started with the request visible costs at most 5 + nL oracle calls *)
+From Alpaqa Require Import StopPromptNbt.
+Theorem C19_panoc_stop_before_start_explicit : forall psi_grad_full psi_yhat grad_L grad_psi lb ub l1 dir_apply has_initial stop_req time_up
+    (P : params (T:=R)) x_in y_in Σ errz_in ls_fuel, sticky stop_req -> forall (nL fuel : nat) o,
+  panoc psi_grad_full psi_yhat grad_L grad_psi lb ub l1 dir_apply has_initial stop_req time_up P x_in y_in Σ errz_in ls_fuel fuel = Done o ->
+  stop_req cnt0 = true -> (0 < Linit psi_grad_full grad_psi P x_in)%R -> (p_Lmax P <= Linit psi_grad_full grad_psi P x_in * 2 ^ nL)%R ->
+  (evals (out_cnt o) <= 5 + nL)%nat /\ out_iterations o = 0%nat /\ c_polls (out_cnt o) = 1%nat /\ c_dir (out_cnt o) = 0%nat /\
+  out_status o <> StBusy.
+Proof. exact panoc_stop_before_start_explicit. Qed.
+Print Assumptions C19_panoc_stop_before_start_explicit.
+
 (* ====================================================================== under ALM (ALMSolver<PANOCSolver>, composed model; over R) *)
 Section C19_ALM.
   Variable Pb : problem (T:=R).
